@@ -99,7 +99,7 @@ pub fn dedup_smallest_missing(window: u128, next: u64, lo: u64, hi: u64, y: u64)
     }
 }
 
-fn mk_pending_acks(
+pub fn mk_pending_acks(
     immediate: bool,
     eliciting: u64,
     non_eliciting: u64,
@@ -122,6 +122,10 @@ fn mk_pending_acks(
         largest_ack_eliciting_packet: largest_eliciting,
         largest_acked,
     }
+}
+
+pub fn pending_acks_thresholds(pa: &PendingAcks) -> (u64, u64) {
+    (pa.ack_eliciting_threshold, pa.reordering_threshold)
 }
 
 /// C03.f: `PendingAcks::packet_received` / `is_out_of_order` with ARBITRARY peer-chosen
